@@ -101,6 +101,10 @@ def match_known(prop, plan_min, v, known, plan_orig=None, v_orig=None):
 _W = {}
 
 
+_STOP = mp.Value("i", 0)       # (self-test aid) unlisted violations found so far, shared with forked workers
+_STOP_AFTER = [0]
+
+
 def _winit():
     kernel.zygote_init()
 
@@ -141,6 +145,8 @@ def work(prop, master, idxs, shrink_budget):
         agg = {"runs": 0, "events": 0, "probes": {}, "traces": set(), "nt_traces": set(), "violations": [],
                "faults": {}, "fps": set(), "ngrams": set(), "digests": {}, "samples": [], "extra_counts": {}}
         for idx in idxs:
+            if _STOP_AFTER[0] and _STOP.value >= _STOP_AFTER[0]:
+                break
             res, plan, hist = one_run(machine, master, idx, oracle, shrink_budget)
             agg["runs"] += 1
             agg["events"] += res["events"]
@@ -163,6 +169,10 @@ def work(prop, master, idxs, shrink_budget):
                 v["idx"] = idx
                 v["seed"] = res["seed"]
                 agg["violations"].append(v)
+                if _STOP_AFTER[0] and match_known(prop, v["plan_min"], v["v"], _W.setdefault("known", load_known()),
+                                                  v.get("plan"), v.get("v0")) is None:
+                    with _STOP.get_lock():
+                        _STOP.value += 1
             if len(agg["samples"]) < 1 and res["nontrivial"]:
                 agg["samples"].append({"run": idx, "seed": res["seed"],
                                        "steps": [_brief(s) for s in plan["steps"]],
@@ -282,6 +292,7 @@ def batch(a, prop, machine, t0):
            "faults": {}, "fps": set(), "ngrams": set(), "digests": {}, "samples": [], "oracle_queries": 0,
            "extra_counts": {}}
     capped = False
+    _STOP_AFTER[0] = a.stop_after or 0
     ctx = mp.get_context("fork")
     with cf.ProcessPoolExecutor(max_workers=a.workers, mp_context=ctx, initializer=_winit) as pool:
         futs = [pool.submit(work, prop, master, c, shrink_budget) for c in chunks]
